@@ -619,6 +619,10 @@ type replica struct {
 	attempts      int
 	attemptedTime time.Duration
 	flag          uint8
+	// extraChances counts how often onUpdateLeader revived this exhausted replica. Every other replica may
+	// name it as the leader once; without a bound a cycle of NotLeader hints (A says B, B says C, C says A,
+	// ...) revives every replica forever and the request is re-sent endlessly without any back-off.
+	extraChances int
 }
 
 func (r *replica) getEpoch() uint32 {
@@ -633,10 +637,11 @@ func (r *replica) isExhausted(maxAttempt int, maxAttemptTime time.Duration) bool
 	return r.attempts >= maxAttempt || (maxAttemptTime > 0 && r.attemptedTime >= maxAttemptTime)
 }
 
-func (r *replica) onUpdateLeader() {
-	if r.isExhausted(maxReplicaAttempt, maxReplicaAttemptTime) {
+func (r *replica) onUpdateLeader(maxExtraChances int) {
+	if r.isExhausted(maxReplicaAttempt, maxReplicaAttemptTime) && r.extraChances < maxExtraChances {
 		// Give the replica one more chance and because each follower is tried only once,
 		// it won't result in infinite retry.
+		r.extraChances++
 		r.attempts = maxReplicaAttempt - 1
 		r.attemptedTime = 0
 	}
@@ -813,7 +818,7 @@ func (s *baseReplicaSelector) updateLeader(leader *metapb.Peer) int {
 			if replica.store.getLivenessState() != reachable {
 				return -1
 			}
-			replica.onUpdateLeader()
+			replica.onUpdateLeader(len(s.replicas) - 1)
 			// Update the workTiKVIdx so that following requests can be sent to the leader immediately.
 			if !s.region.switchWorkLeaderToPeer(leader) {
 				panic("the store must exist")
